@@ -640,6 +640,19 @@ class Check:
             mism, outs, wall, errors = coq_eval_cases(self.PID, self.HEADER, self.RUN, terms, expected,
                                                       tag="_" + self.tier,
                                                       case_type=getattr(self, "CASE_TYPE", None))
+            # optional second executable (e.g. the functions GENERATED from the source): same cases, same expectations
+            run2 = getattr(self, "RUN2", None)
+            if run2:
+                m2, o2, w2, e2 = coq_eval_cases(self.PID, self.HEADER2, run2, terms, expected,
+                                                tag="_" + self.tier + "_gen",
+                                                case_type=getattr(self, "CASE_TYPE", None))
+                self.extra_cov["second_executable"] = {"run": run2, "cases": len(terms), "mismatches": len(m2),
+                                                       "errors": len(e2), "coq_wall_s": round(w2, 2)}
+                for k, v in o2.items():
+                    outs.setdefault(k, v)
+                mism = sorted(set(mism) | set(m2))
+                wall += w2
+                errors = errors + [f"[{run2}] {e}" for e in e2]
         else:
             mism, outs, wall, errors = [], {}, 0.0, []
         errors = pre_errors + errors
